@@ -461,6 +461,9 @@ func BuildMatrix(sp RunnerSpec, s int) [][]Cell {
 			} else if item == 3 && c.Pass {
 				// a passing overlapping result has two different, passing pairs
 				c.P2 = 0.02 + 0.97*r.Float64()
+				if d.Q2Bin >= 1 && d.Q2Bin <= 10 {
+					c.P2 = (float64(d.Q2Bin-1) + 0.25 + 0.7*r.Float64()) / 10
+				}
 				c.Q2 = c.P2
 			}
 			m[perm[i]][item] = c
